@@ -12,6 +12,8 @@ extern const char *g_json_key;
 extern unsigned g_json_version, g_json_mutations, g_json_loads_flags, g_json_dumps_flags;
 extern json_t *g_json_loaded, *g_json_loaded_tracked; extern int g_json_update_kind;
 
+/* ghosts written by the json_load* models */
+#define JSON_LOAD_GHOSTS g_json_loads_flags, g_json_loaded, g_json_loaded_tracked
 #define VJ(p) (p)
 /* a valid model object node */
 #define VJ_IS_OBJECT(p) (__CPROVER_is_fresh(p, sizeof(vj_t)) && VJ(p)->type == JSON_OBJECT && \
